@@ -21,6 +21,7 @@ CONSTANTS TreeSet,        \* the source trees the environment may switch between
           MaxDeletes,     \* bound on the number of delete/gc runs started
           MaxFaults,      \* bound on injected verb failures
           AllowCrash, AllowEmptyLeftover,
+          AllowTornRmdir, \* a kill may come inside the recursive removal of a band directory
           \* protocol choices, set to what /repo does
           CombinerClearsQueueOnFailedFlush,
           GcStopsOnUnreadableHunk,
@@ -34,7 +35,7 @@ VARIABLES fs,       \* the archive
           gc,       \* delete/gc actor
           snap,     \* ghost: band -> tree it was made from
           partial,  \* ghost: bands written under faults
-          cnt       \* ghost: [backups, deletes, faults] used so far
+          cnt       \* ghost: [backups, deletes, faults] used so far; torn = bands half removed by a killed delete
 
 vars == <<fs, src, bk, gc, snap, partial, cnt>>
 
@@ -66,7 +67,7 @@ Init ==
     /\ gc = IdleGc
     /\ snap = <<>>
     /\ partial = {}
-    /\ cnt = [backups |-> 0, deletes |-> 0, faults |-> 0]
+    /\ cnt = [backups |-> 0, deletes |-> 0, faults |-> 0, torn |-> {}]
 
 Quiet == bk.pc = "Idle" /\ gc.pc = "Idle"
 
@@ -375,12 +376,13 @@ GcDeleteBand ==
     /\ gc.pc = "DeleteBands"
     /\ IF gc.todel = {}
        THEN /\ gc' = [gc EXCEPT !.pc = "DeleteBlocks"] /\ UNCHANGED <<fs, snap, partial>>
-       ELSE LET b == SetMin(gc.todel) IN       \* in the order given
+       ELSE LET b == SetMin(gc.todel) IN       \* in the order given (one remove_dir_all each)
             /\ fs' = RemoveDirAllAt(fs, Key("BandDir", b, -1, ""))
             /\ gc' = [gc EXCEPT !.todel = @ \ {b}]
             /\ snap' = [x \in (DOMAIN snap) \ {b} |-> snap[x]]
             /\ partial' = partial \ {b}
-    /\ UNCHANGED <<src, bk, cnt>>
+    /\ cnt' = IF gc.todel = {} THEN cnt ELSE [cnt EXCEPT !.torn = @ \ {SetMin(gc.todel)}]
+    /\ UNCHANGED <<src, bk>>
 
 GcDeleteBlock ==
     /\ gc.pc = "DeleteBlocks"
@@ -409,6 +411,27 @@ GcCrash ==
     /\ gc' = IdleGc
     /\ UNCHANGED <<fs, src, bk, snap, partial, cnt>>
 
+\* a kill inside the removal of a band directory: remove_dir_all is recursive and not atomic, so
+\* any subset of the band's files may already be gone (the directory itself is still there).
+\* The version was being deleted: it is forgotten by the snapshot ghost and remembered as torn.
+GcCrashTorn ==
+    /\ AllowCrash /\ AllowTornRmdir
+    /\ gc.pc = "DeleteBands" /\ gc.todel # {}
+    /\ LET b == SetMin(gc.todel)
+           bd == fs.bands[b]
+       IN
+       /\ \E kh \in BOOLEAN, kt \in BOOLEAN, K \in SUBSET (DOMAIN bd.hunks) :
+             /\ ~(kh /\ kt /\ K = DOMAIN bd.hunks)        \* (nothing removed yet: that is GcCrash)
+             /\ fs' = [fs EXCEPT !.bands[b] = [head |-> IF kh THEN bd.head ELSE "absent",
+                                                tail |-> IF kt THEN bd.tail ELSE "absent",
+                                                tc |-> IF kt THEN bd.tc ELSE -1,
+                                                hunks |-> [n \in K |-> bd.hunks[n]]]]
+       /\ snap' = [x \in (DOMAIN snap) \ {b} |-> snap[x]]
+       /\ partial' = partial \ {b}
+       /\ cnt' = [cnt EXCEPT !.torn = @ \cup {b}]
+    /\ gc' = IdleGc
+    /\ UNCHANGED <<src, bk>>
+
 \* the stale lock of a killed delete is broken by hand (delete --break-lock)
 BreakLock ==
     /\ Quiet /\ fs.lock
@@ -417,6 +440,7 @@ BreakLock ==
 
 GcNext == \/ GcListBands \/ GcCheckTail \/ GcCheckLock \/ GcWriteLock \/ GcListKeep \/ GcReadRefs
           \/ GcListBlocks \/ GcRecheck \/ GcDeleteBand \/ GcDeleteBlock \/ GcRelease \/ GcReturn \/ GcCrash
+          \/ GcCrashTorn
 
 Next == Mutate \/ StartBackup \/ BkNext \/ StartDelete \/ GcNext \/ BreakLock
 
@@ -425,8 +449,9 @@ Spec == Init /\ [][Next]_vars
 (***************************************************************************)
 (* Properties (state invariants unless said otherwise).                    *)
 (***************************************************************************)
-\* C13: whatever has been written conforms to the documented format
-Inv_Format == FormatViol(fs) = {}
+\* C13: whatever has been written conforms to the documented format (what a kill inside the
+\* removal of a version left of that version is not something conserve wrote)
+Inv_Format == {v \in FormatViol(fs) : v[2] \notin cnt.torn} = {}
 
 \* C03 / C04 / C05: no index entry anywhere names a block that is missing or too short
 Inv_NoDangling == Dangling(fs, Bands(fs)) = {}
@@ -467,12 +492,12 @@ Inv_GcExact ==
 \* C09: on every archive fault-free operation can leave (interrupted backups counted once their
 \* header is readable) the validator is silent ...
 Inv_ValidateQuietOnHealthy ==
-    (Quiet /\ \A b \in Bands(fs) : HeadOK(fs, b)) => (~ValidatorReports(fs, FALSE) /\ ~ValidatorReports(fs, TRUE))
+    (Quiet /\ cnt.torn = {} /\ \A b \in Bands(fs) : HeadOK(fs, b)) => (~ValidatorReports(fs, FALSE) /\ ~ValidatorReports(fs, TRUE))
 
 \* ... and after any single damage that matters and does not leave a legal state it reports
 \* (full validation; quick validation for missing files)
 Inv_ValidateAdequate ==
-    Quiet => \A d \in Damages(fs) :
+    (Quiet /\ cnt.torn = {}) => \A d \in Damages(fs) :
                 LET f == ApplyDamage(fs, d) IN
                 (DamageMatters(fs, f) /\ FormatViol(f) # {}) =>
                     (ValidatorReports(f, FALSE) /\ (d.how = "delete" => ValidatorReports(f, TRUE)))
